@@ -12,7 +12,7 @@ import (
 func init() {
 	register(&explore.Prop{
 		ID: "C01", Level: levelMC, Explorer: "E1 input-space enumerator",
-		Rule: "every batch of scopes POST(N) x modes, TERM, FIELD, REP, MIX x modes, LARGE x modes is built with the real builder and its full observation compared with the reference model; " +
+		Rule: "every batch of scopes POST(N) x modes, TERM, FIELD, REP, MIX x modes, MANYTERMS, LARGE x modes is built with the real builder and its full observation compared with the reference model; " +
 			"distinct = distinct (mode, decoded batch); non-trivial = some postings list has >=2 postings, or a location, or a repeated field, or >=2 fields",
 		Assumptions: commonAssumptions, Budget: qBudget, Run: runC01,
 	})
@@ -199,6 +199,31 @@ func runC01(c *explore.Ctx) {
 					return !c.Expired()
 				})
 			}
+		}
+	}
+	// MANYTERMS: hundreds of distinct terms with a long shared prefix in one field, frequencies and
+	// positions needing multi-byte varints, a second field with a handful of terms
+	for ci, nt := range []int{130, 300, 1000} {
+		for _, m := range []uint32{1025, 2} {
+			scope := "MANYTERMS"
+			my := int64(ci*2) + int64(m%2)
+			if !c.MineIdx(scope, my) || c.Expired() {
+				continue
+			}
+			var batch []model.Doc
+			for d := 0; d < 3; d++ {
+				var ts []model.Term
+				for t := d; t < nt; t += 1 + d {
+					ts = append(ts, model.Term{T: fmt.Sprintf("a-long-common-prefix-shared-by-all-terms-%04d", t), Freq: 1 + (t*37)%400,
+						Locs: []model.Loc{{P: t * 3, S: t * 1000, E: t*1000 + 7}}})
+				}
+				n := 0
+				for _, t := range ts {
+					n += t.Freq
+				}
+				batch = append(batch, model.Doc{{N: "a", Len: n, Terms: ts}, {N: "b", Len: 2, DV: true, Terms: []model.Term{{T: "x", Freq: 1}, {T: fmt.Sprintf("d%d", d), Freq: 1}}}})
+			}
+			checkBuiltLarge(c, scope, my, batch, m, fmt.Sprintf("MANYTERMS terms=%d %s", nt, modeStr(m)))
 		}
 	}
 	// LARGE: the only way to make the adaptive mode multi-chunk
